@@ -46,7 +46,7 @@ fn accepts(text: &str) -> Outcome<()> {
 
 pub fn run(cx: &mut Ctx) {
     let sigs: Vec<JetSig> = cx.golden.sigs.clone();
-    let n_random = if cx.thorough { 400 } else { 24 };
+    let n_random = if cx.thorough { 1_500 } else { 400 };
     for (idx, sig) in sigs.iter().enumerate() {
         if idx % cx.nshards != cx.shard {
             continue;
